@@ -6,7 +6,7 @@ from harness import sx, common as C
 N_QUICK, N_THOROUGH = 2500, 100000
 RULE = ("data: 0..40 values drawn from the bin edges, their nextafter neighbours, mid-points, gap interiors, far outliers "
         "(+-1e300), duplicates, 10% NaN, shapes (n,), (a,b), (a,b,c); weights none/int/dyadic; bins regular/irregular/gapped/"
-        "near-gapped/gapped at scale 1e-6/single given as edge array, pair array, list, binning object (Static/Numpy/FixedWidth), int or method name "
+        "near-gapped/gapped at scale 1e-6/single (7%: weights 2^60 beside 1, one region heavy) given as edge array, pair array, list, binning object (Static/Numpy/FixedWidth), int or method name "
         "(bins read back); dtype x keep_missed x dropna; malformed stream (unsorted/overlapping bins, wrong weight shape, int "
         "dtype + float weights, NaN without dropna). non-trivial = accepted, >=1 value inside a bin and >=1 value exactly on an "
         "edge, in a gap or outside")
@@ -78,6 +78,20 @@ def gen(rng, n, tier):
         if wkind == "int": weights = [rng.randint(0, 5) for _ in range(m)]
         elif wkind == "float": weights = [Fr(rng.randint(0, 40), 8) for _ in range(m)]
         else: weights = []
+        if malformed == "none" and m >= 2 and rng.random() < 0.07:
+            # weights of widely different magnitude (2^60 beside 1): every bin's own sum stays exactly representable because
+            # one region (a bin's interior, the underflow or the overflow region) holds only multiples of 2^60 and the others
+            # only small weights; sums ACROSS regions (prefix sums, totals) are not representable
+            regions = ["under", "over"] + list(range(nb))
+            big = rng.choice(regions)
+            rv = {"under": lo - 1, "over": hi + 1}
+            for j in range(nb): rv[j] = (bins[j][0] + bins[j][1]) / 2
+            picks = [big] + [rng.choice(regions) for _ in range(m - 1)]
+            rng.shuffle(picks)
+            data = [rv[r_] for r_ in picks]
+            wkind = "float"
+            weights = [(Fr(2 ** 60) * rng.randint(1, 4) if r_ == big else Fr(rng.randint(1, 5))) for r_ in picks]
+            shape = [m]
         wshape_ok = "T"
         if wkind != "none" and m > 1 and rng.random() < 0.04:
             weights = weights[:-1]; wshape_ok = "F"; malformed = "wshape"
